@@ -1,12 +1,136 @@
 /- Driver operations of contributor `Sup` (translated-code ties): run GENERATED functions so the harness can compare them with the real code.
-   Wired into the cluster drivers by a fall-through; return `none` for names that are not yours. -/
+   Wired into the cluster drivers by a fall-through; return `none` for names that are not yours.
+
+   gen_superpose          `GenSup.superpose` (Gen/Sup.lean) on the tables / options / keywords of a C13 case, the kernel = the matrix NumPy
+                          returned in the real run; answers with the generated function's result, the hand model's, and whether they are equal
+   gen_get_intersection   `GenSup.get_intersection` on two tables and keywords (world = the hand model's many2sql steps)
+   gen_quat               `GenSup.get_rotation_matrix_quaternion` with NumPy's `eigh` factors of the real run
+   gen_dispatch           `GenSup.get_rotation_matrix` over the translated kernels (`GenK.get_rotation_matrix_Kabsh`, the quaternion one) -/
 import PdbVerif.Driver.Json
+import PdbVerif.Driver.GCommon
+import PdbVerif.Driver.DCommon
+import PdbVerif.Proofs.GenSupWorld
+import PdbVerif.Gen.Consts
 
 namespace Driver.ExtSup
-open Lean Driver
+open Lean Driver Py
+open Proofs.GenSupWorld
+
+/-- `**kwargs` as the harness writes it (an object: keyword -> list of strings / integers), in the order of the JSON object -/
+def jKwargs (j : Json) (k : String) : Except String GenSup.Rt.Kwargs := do
+  let o ← jVal j k
+  match o with
+  | .obj kvs =>
+    kvs.toList.mapM (fun (kv : String × Json) => do
+      let vals ← match kv.2 with
+        | .arr a => a.toList.mapM (fun (v : Json) => match v with
+            | .str s => pure (Py.Val.text s.toList)
+            | .num n => (if n.exponent = 0 then pure (Py.Val.int n.mantissa) else throw "kwargs: integer expected")
+            | _ => throw "kwargs: string or integer expected")
+        | _ => throw "kwargs: list expected"
+      pure (kv.1.toList, vals))
+  | _ => throw "kwargs: object expected"
+
+def kernelOf (kj : Json) : Except String (List (Vec3 Rat) → List (Vec3 Rat) → Unit → Except Py.Err (Mat3 Rat)) :=
+  match kj.getObjVal? "R" with
+  | .ok _ => do let R ← GCommon.mat3OfList (← GCommon.jRatList kj "R"); pure (fun _ _ _ => .ok R)
+  | .error _ =>
+    match kj.getObjVal? "err" with
+    | .ok (.str "ERR:ValueError") => pure (fun _ _ _ => .error Py.Err.valueError)
+    | .ok (.str "ERR:TypeError") => pure (fun _ _ _ => .error Py.Err.typeError)
+    | _ => pure (fun _ _ _ => .error (Py.Err.unmodelled "kernel not called in the real run"))
+
+def filesJ (fs : List (Py.Str × List Py.Str)) : Json :=
+  Json.arr (fs.map (fun f => Json.arr #[strJ f.1, Json.arr (f.2.map strJ).toArray])).toArray
+
+def pointsJ (X : List (Vec3 Rat)) : Json := .arr (X.map GCommon.vecJ).toArray
+
+/-- `(l, U)` of `np.linalg.eigh` from the four pairs `(l[k], U[:, k])` the harness recorded -/
+def eighOfPairs (lU : List (Rat × Vec4 Rat)) : Except String (Vec4 Rat × Mat4 Rat) :=
+  match lU with
+  | [(l0, c0), (l1, c1), (l2, c2), (l3, c3)] =>
+    .ok (⟨l0, l1, l2, l3⟩,
+         ⟨c0.w, c1.w, c2.w, c3.w, c0.x, c1.x, c2.x, c3.x, c0.y, c1.y, c2.y, c3.y, c0.z, c1.z, c2.z, c3.z⟩)
+  | _ => .error "eig: four pairs expected"
+
+def jEig (j : Json) (k : String) : Except String (List (Rat × Vec4 Rat)) := do
+  let a ← jArr j k
+  a.toList.mapM (fun p => do
+    let pr ← D.asArr p
+    if pr.size != 2 then throw "eig: [l, [q0,q1,q2,q3]] expected"
+    let l ← asRat pr[0]!
+    let q ← D.asVec4 pr[1]!
+    pure (l, q))
+
+def matResJ (r : Except Py.Err (Mat3 Rat)) : Json := exceptJ D.mat3J r
+
+/-- same value or same exception -/
+def sameResult {α : Type} [DecidableEq α] (a b : Except Py.Err α) : Bool :=
+  match a, b with
+  | .ok x, .ok y => decide (x = y)
+  | .error x, .error y => decide (x = y)
+  | _, _ => false
 
 def op (name : String) (j : Json) : Except String (Option Json) := do
   match name with
+  | "gen_superpose" =>
+    let mob ← GCommon.jAtoms j "mobile"; let tar ← GCommon.jAtoms j "target"
+    let kw ← jKwargs j "sel"
+    let ob ← jBool j "only_backbone"; let ex ← jBool j "export"
+    let kernel ← kernelOf (← jVal j "kernel")
+    let byName := (jBool j "by_name") matches .ok true
+    let mdb : Model.SupDb.Db := { rows := mob, pdbfile := GCommon.jOptStr j "mobile_file" }
+    let tdb : Model.SupDb.Db := { rows := tar, pdbfile := GCommon.jOptStr j "target_file" }
+    -- by_name: the arguments are sources and `pdb2sql(.)` (a parameter) opens them; otherwise they are databases
+    let arg (d : Model.SupDb.Db) : Sum GenSup.Rt.Db GenSup.Rt.Db := if byName then .inl (toGen d) else .inr (toGen d)
+    let gen := GenSup.superpose (fun (d : GenSup.Rt.Db) => .ok d) many2sql many2sqlCall many2sqlGetIntersection kernel
+      (arg mdb) (arg tdb) () ob ex kw
+    let model := (Model.SupDb.superpose (fun P Q => kernel P Q ()) mdb tdb (argsOf ob ex kw)).map (outOf mdb)
+    let resJ := exceptJ (fun (o : GenSup.Rt.Db × List (Py.Str × List Py.Str)) => Json.mkObj [
+      ("mobile", GCommon.atomsJ o.1.rows), ("pdbfile", match o.1.pdbfile with | some p => strJ p | none => Json.null),
+      ("files", filesJ o.2)])
+    let eq : Bool := sameResult gen model
+    pure (some (Json.mkObj [("gen", resJ gen), ("model", resJ model), ("equal", .bool eq),
+      ("kw_check", exceptJ (fun _ => Json.null) (GenSup.Rt.kwCheck kw))]))
+  | "gen_get_intersection" =>
+    let d1 ← GCommon.jAtoms j "db1"; let d2 ← GCommon.jAtoms j "db2"
+    let kw ← jKwargs j "sel"
+    let gen := GenSup.get_intersection many2sql many2sqlCall many2sqlGetIntersection ⟨d1, none⟩ ⟨d2, none⟩ kw
+    let model := (Model.SupDb.getIntersection d1 d2 (GenSup.Rt.kwTest kw)).map (fun pairs => (pairs.map (·.1), pairs.map (·.2)))
+    let resJ := exceptJ (fun (o : List (Vec3 Rat) × List (Vec3 Rat)) => Json.arr #[pointsJ o.1, pointsJ o.2])
+    let eq : Bool := sameResult gen model
+    pure (some (Json.mkObj [("gen", resJ gen), ("model", resJ model), ("equal", .bool eq)]))
+  | "gen_quat" =>
+    let P ← D.jPoints j "P"; let Q ← D.jPoints j "Q"
+    let lU ← jEig j "eig"
+    let gen ← match eighOfPairs lU with
+      | .ok e => pure (GenSup.get_rotation_matrix_quaternion (fun _ => e) Gen.quat_eps P Q)
+      | .error _ =>
+        -- nothing (usable) recorded: the kernel must stop at its guards; an `eigh` that is reached answers zeros
+        pure (GenSup.get_rotation_matrix_quaternion (fun _ => (⟨0, 0, 0, 0⟩, ⟨0,0,0,0, 0,0,0,0, 0,0,0,0, 0,0,0,0⟩)) Gen.quat_eps P Q)
+    let model := match eighOfPairs lU with
+      | .ok e => Model.quaternion (eigPairs (fun _ => e)) Gen.quat_eps P Q
+      | .error _ => Model.quaternion (eigPairs (fun _ => (⟨0, 0, 0, 0⟩, ⟨0,0,0,0, 0,0,0,0, 0,0,0,0, 0,0,0,0⟩))) Gen.quat_eps P Q
+    pure (some (Json.mkObj [("gen", matResJ gen), ("model", matResJ model), ("equal", .bool (sameResult gen model)),
+      ("lits", Json.arr (GenSup.get_rotation_matrix_quaternion_lits.map ratJ).toArray)]))
+  | "gen_dispatch" =>
+    let P ← D.jPoints j "P"; let Q ← D.jPoints j "Q"
+    let m ← jStr j "method"
+    let svd : Mat3 Rat → Mat3 Rat × Vec3 Rat × Mat3 Rat ←
+      if D.hasField j "V" then do
+        let V ← D.jMat3 j "V"; let s ← D.jVec3 j "s"; let Wt ← D.jMat3 j "Wt"
+        pure (fun _ => (V, s, Wt))
+      else pure (fun _ => (Mat3.one, ⟨1, 1, 1⟩, Mat3.one))
+    let eigh : Mat4 Rat → Vec4 Rat × Mat4 Rat ←
+      if D.hasField j "eig" then do
+        match eighOfPairs (← jEig j "eig") with
+        | .ok e => pure (fun _ => e)
+        | .error _ => pure (fun _ => (⟨0, 0, 0, 0⟩, ⟨0,0,0,0, 0,0,0,0, 0,0,0,0, 0,0,0,0⟩))
+      else pure (fun _ => (⟨0, 0, 0, 0⟩, ⟨0,0,0,0, 0,0,0,0, 0,0,0,0, 0,0,0,0⟩))
+    let gen := GenSup.get_rotation_matrix (GenK.get_rotation_matrix_Kabsh svd Gen.kabsch_eps)
+      (GenSup.get_rotation_matrix_quaternion eigh Gen.quat_eps) P Q m
+    let model := Model.getRotationMatrix svd (eigPairs eigh) Gen.kabsch_eps Gen.quat_eps (methodOf m) P Q
+    pure (some (Json.mkObj [("gen", matResJ gen), ("model", matResJ model), ("equal", .bool (sameResult gen model))]))
   | _ => pure none
 
 end Driver.ExtSup
